@@ -51,8 +51,8 @@ plan("C09", "exploration",
      {"verify-ok": 1}, "a VerifyLeader call returned nil",
      {"quick": {"verify-ok": 100, "lease-cut:voters-cut-nonvoters-reachable": 20}, "thorough": {"verify-ok": 3000}})
 plan("C10", "fault_enumeration",
-     [sim("crashpoints", 45), sim("random", 15)],
-     [sim("crashpoints", 1000), sim("random", 400), sim("churn", 200), sim("restore", 100)],
+     [sim("crashpoints", 38), sim("snapcfg", 12), sim("random", 10)],
+     [sim("crashpoints", 1000), sim("snapcfg", 300), sim("random", 400), sim("churn", 200), sim("restore", 100)],
      {"restart-checked": 4}, "at least one restart from a crash image was compared with what the new incarnation reports",
      {"quick": {"restart-checked": 300, "restart-with-snapshot": 30}, "thorough": {"restart-checked": 8000}})
 plan("C12", "exploration",
@@ -119,8 +119,8 @@ plan("C07", "exploration",
      rule="TABLE: every configuration over 3 (quick) / 4 (thorough) server ids x every command x every target (incl. a new id) x address in {own, another server's, new, empty} x prevIndex in {0, current, stale-, stale+}, "
           "compared with the stated rules; non-trivial = the voter set changed by one. SIM: " + (SIM_RULE % "a configuration entry was appended / stored"))
 plan("C11", "fault_enumeration",
-     [tbl("table", "TestC11", 1, "TABLE"), sim("lagging", 25), sim("crashpoints", 25), sim("random", 10)],
-     [tbl("table", "TestC11", 1, "TABLE"), sim("lagging", 500), sim("crashpoints", 500), sim("random", 300), sim("restore", 100)],
+     [tbl("table", "TestC11", 1, "TABLE"), sim("lagging", 22), sim("crashpoints", 20), sim("snapcfg", 8), sim("random", 10)],
+     [tbl("table", "TestC11", 1, "TABLE"), sim("lagging", 500), sim("crashpoints", 500), sim("snapcfg", 200), sim("random", 300), sim("restore", 100)],
      None, None,
      {"quick": {"op:snap.close": 100, "compaction": 50, "snapshot-fidelity-checked": 100}, "thorough": {"op:snap.close": 3000}},
      rule="TABLE: compactLogsWithTrailing for every (first, last, snapshot index, last log index, TrailingLogs) with values 0..8 (exhaustive); "
